@@ -125,6 +125,7 @@ package store
 //@   properties C05
 //@   ghost var oldWriterRetired bool = false
 //@   requires nonnil: s != nil
+//@   requires data_set_lock_not_held_on_entry: dsMuxHeld == 0
 //@   modifies heap, oldWriterRetired
 //@   set oldWriterRetired = true at call CloseAofWriter
 //@   assert at call NewAofWriter: previous_writer_is_retired_before_the_new_one_opens_its_file: oldWriterRetired
